@@ -57,6 +57,8 @@ pub fn from_parts(
             pattern_lens.len(),
         )
     };
+    // see dfa.rs: unnamed (future) fields come from an all-zero value
+    let base = unsafe { core::mem::MaybeUninit::<NFA>::zeroed().assume_init() };
     NFA {
         repr: unsafe {
             Vec::from_raw_parts(
@@ -81,6 +83,7 @@ pub fn from_parts(
             start_unanchored_id: StateID::new_unchecked(special[2] as usize),
             start_anchored_id: StateID::new_unchecked(special[3] as usize),
         },
+        ..base
     }
 }
 
